@@ -206,6 +206,11 @@ def rule_r1(ctx) -> List[R.Inst]:
                 if k in assigned:
                     dup.append(k)
                 assigned[k] = (C.self_attr(n.targets[0]), n)
+    if not assigned:
+        # no `self.<field> = meta_fields[k]…` statement at all: the fields reach the object some other way (destructuring, a loop
+        # over names …) — which row lands in which field is then not read off this function
+        return [R.undec(rid, "fields", file, rm.node.lineno, "the unpacked header rows are not assigned as `self.<field> = meta_fields[k]`: "
+                                                              "which row reaches which field is not decided")]
     undec_fields = []
     for k, (fmt, size, count) in enumerate(zip(fmts, sizes, counts)):
         fz = frozen[k] if k < len(frozen) else None
